@@ -52,9 +52,11 @@ CLAIMED = {
                      "combinations and a skip list; the whole readFiles is decided over small trees (hidden entries, one symbolic link incl. a cycle, five skip lists, "
                      "file/dir/hidden/follow) with fastwalk.Walk replaced by a model that the native replays compare with the real fastwalk; parseWalkerOpts on word lists. "
                      "fastwalk's own traversal, file-system errors and larger trees are NOT claimed."),
-    "C09": dict(ref="DESIGN.md §3 C09", note=NOTE + "; partial: leaf helpers only; the doAction dispatcher is outside",
-                text="Cursor movement (vset/vmove with --cycle and layout direction), the multi-select primitives under every operation sequence up to the bound, and "
-                     "delete-char are decided against the documented rules. The readline-style editing and select-all logic in the action dispatcher is NOT claimed."),
+    "C09": dict(ref="DESIGN.md §3 C09", note=NOTE + "; partial: the doAction dispatcher (lifted) and leaf helpers; the key loop around it is outside",
+                text="The action dispatcher doAction, lifted verbatim from Terminal.Loop, is decided against a readline-style reference editor for every sequence of editing actions "
+                     "up to the bound and against the multi-select / cursor rules for every sequence of selection and navigation actions up to the bound (current results a "
+                     "sub-list of the loaded items, --multi limit, --cycle, layout, paging in single-line mode); plus cursor and selection primitives and UpdateList's selection handling. "
+                     "The key loop around the dispatcher, command-running actions, --track and multi-line layouts are NOT claimed."),
 }
 PENDING = "check not built yet in this session (planned, see DESIGN.md §3)"
 NA = {
